@@ -301,29 +301,45 @@ def gen_gmut(rng):
 def gen_struct(rng):
     r = rng.random()
     g = rng.choice(NAMES[:4])
-    if r < 0.16:
+    if r < 0.10:
         return ["pen", g, gen_shape(rng)]
-    if r < 0.22:
+    if r < 0.15:
         return ["instc", g, gen_shape(rng)]
-    if r < 0.27:
+    if r < 0.19:
         return ["mkc", gen_shape(rng)]
-    if r < 0.37:
+    if r < 0.31:
         return ["insc", g, rng.randint(0, 3), rng.randint(0, 3)]
-    if r < 0.47:
+    if r < 0.42:
         return ["remc", ["a", g, rng.randint(0, 3)]]
-    if r < 0.57:
+    if r < 0.50:
         return ["instk", g, rng.choice(NAMES), gen_tr(rng)]
-    if r < 0.61:
+    if r < 0.54:
         return ["mkk", rng.choice(NAMES + [None]), gen_tr(rng)]
-    if r < 0.69:
+    if r < 0.64:
         return ["insk", g, rng.randint(0, 3), rng.randint(0, 3)]
-    if r < 0.77:
+    if r < 0.73:
         return ["remk", ["a", g, rng.randint(0, 3)]]
-    if r < 0.84:
+    if r < 0.82:
         return ["newGlyph", rng.choice(NAMES)]
-    if r < 0.92:
+    if r < 0.91:
         return ["delGlyph", rng.choice(NAMES)]
     return ["rename", rng.choice(NAMES), rng.choice(NAMES)]
+
+
+def gen_churn(rng):
+    """base-glyph churn: a name that components reference goes away and comes back"""
+    b = rng.choice(NAMES[1:5])
+    other = rng.choice([n for n in NAMES if n != b])
+    r = rng.random()
+    if r < 0.3:
+        return [["rename", b, other], ["getall"], ["rename", other, b]]
+    if r < 0.5:
+        return [["rename", b, other], ["getall"], ["rename", rng.choice(NAMES[:4]), b]]
+    if r < 0.8:
+        return [["delGlyph", b], ["getall"], ["newGlyph", b], ["getall"], ["pen", b, gen_shape(rng)]]
+    edit = rng.choice([["c", ["l", 0], "removePoint", 0], ["c", ["l", 0], "reverse"],
+                       ["c", ["l", 0], "appendPoint", gen_pt(rng)], ["c", ["l", 0], "move", 10, 20]])
+    return [["remc", ["a", b, 0]], edit, ["insc", b, 0, 0]]
 
 
 def gen_groups(rng):
@@ -377,7 +393,10 @@ def gen_case(rng, maxlen):
             ops.append(gen_request(rng))
             continue
         kind = focus if (focus != "mix" and rng.random() < 0.6) else rng.choice(["c", "c", "k", "g", "s", "s", "groups"])
-        ops.append({"c": gen_cmut, "k": gen_kmut, "g": gen_gmut, "s": gen_struct, "groups": gen_groups}[kind](rng))
+        if kind == "s" and rng.random() < 0.2:
+            ops.extend(gen_churn(rng))
+        else:
+            ops.append({"c": gen_cmut, "k": gen_kmut, "g": gen_gmut, "s": gen_struct, "groups": gen_groups}[kind](rng))
         if rng.random() < 0.25:
             ops.append(["getall"])
     if rng.random() < 0.8:
@@ -470,7 +489,7 @@ def gen_directed(rng):
 
 
 def generate(rng, tier):
-    n, maxlen = (150, 22) if tier == "quick" else (5000, 45)
+    n, maxlen = (170, 26) if tier == "quick" else (4000, 45)
     for c in gen_directed(rng):
         yield c
     for i in range(n):
